@@ -389,15 +389,24 @@ std::string run_heap_case(const std::vector<std::string>& lines) {
   std::ostringstream out;
   perturb_set(0);          // every case starts with the plain allocation order
   World w;
+  bool overflowed = false;
   for (auto const& line : lines) {
     auto t = split_ws(line);
     if (t.empty()) continue;
     if (t[0] == "case") { out << line << "\n"; continue; }
+    if (overflowed) { out << "unsupported\n"; continue; }
     try {
       std::string r = run_op(w, t, out);
       out << r << "\n";
     } catch (const std::exception& e) {
       out << "exn " << classify(e) << "\n";
+    }
+    // once an ID has left its field (value above 0xffff, track-format counter above 0xff) the case is outside what the
+    // model says about libadm (the model's numbers are unbounded): the rest of the case is not compared
+    for (auto const& n : w.order) {
+      const El& e = w.els.at(n);
+      IdV i = id_of(e);
+      if ((e.kind != KUid && i.val > 0xffffu) || (e.kind == KTrack && i.ctr > 0xffu)) { overflowed = true; break; }
     }
   }
   out << "end\n";
